@@ -26,8 +26,9 @@ import (
 )
 
 const (
-	chansimPath = "verif/chansim"
-	simsyncPath = "verif/chansim/simsync"
+	chansimPath   = "verif/chansim"
+	simsyncPath   = "verif/chansim/simsync"
+	simatomicPath = "verif/chansim/simatomic"
 )
 
 // Report says what the translator did (goes into evidence).
@@ -87,7 +88,11 @@ func call(fun ast.Expr, args ...ast.Expr) *ast.CallExpr { return &ast.CallExpr{F
 func lit(s string) ast.Expr { return &ast.BasicLit{Kind: token.STRING, Value: strconv.Quote(s)} }
 
 // TranslateDir translates every non-test .go file of srcDir into dstDir.
-func TranslateDir(srcDir, dstDir string, race bool) (*Report, error) {
+// TranslateDir translates srcDir into dstDir. A non-empty langVersion (e.g.
+// "go1.21") is written as a //go:build line, which sets the language version
+// of the translated files (loop variables shared across iterations before
+// go1.22).
+func TranslateDir(srcDir, dstDir string, race bool, langVersion string) (*Report, error) {
 	fset := token.NewFileSet()
 	ents, err := os.ReadDir(srcDir)
 	if err != nil {
@@ -159,6 +164,9 @@ func TranslateDir(srcDir, dstDir string, race bool) (*Report, error) {
 		if err != nil {
 			return nil, fmt.Errorf("translated %s does not parse: %v\n%s", names[i], err, buf.String())
 		}
+		if langVersion != "" {
+			out = append([]byte("//go:build "+langVersion+"\n\n"), out...)
+		}
 		if err := os.WriteFile(filepath.Join(dstDir, names[i]), out, 0o644); err != nil {
 			return nil, err
 		}
@@ -171,12 +179,11 @@ func TranslateDir(srcDir, dstDir string, race bool) (*Report, error) {
 }
 
 var refusedImports = map[string]string{
-	"time":        "timers and sleeps are not simulated",
-	"context":     "context cancellation is not simulated",
-	"reflect":     "reflect.Select / reflect channel operations cannot be intercepted",
-	"unsafe":      "unsafe",
-	"sync/atomic": "atomics are not simulated",
-	"os/signal":   "signals",
+	"time":      "timers and sleeps are not simulated",
+	"context":   "context cancellation is not simulated",
+	"reflect":   "reflect.Select / reflect channel operations cannot be intercepted",
+	"unsafe":    "unsafe",
+	"os/signal": "signals",
 }
 
 // prepass records every decision that needs type information, keyed by the
@@ -386,7 +393,12 @@ func (x *xl) rewrite(f *ast.File) {
 	astutil.Apply(f, nil, func(c *astutil.Cursor) bool {
 		switch n := c.Node().(type) {
 		case *ast.ImportSpec:
-			if p, _ := strconv.Unquote(n.Path.Value); p == "sync" {
+			if p, _ := strconv.Unquote(n.Path.Value); p == "sync/atomic" {
+				n.Path = &ast.BasicLit{Kind: token.STRING, Value: strconv.Quote(simatomicPath)}
+				if n.Name == nil {
+					n.Name = ast.NewIdent("atomic")
+				}
+			} else if p == "sync" {
 				n.Path = &ast.BasicLit{Kind: token.STRING, Value: strconv.Quote(simsyncPath)}
 				if n.Name == nil {
 					n.Name = ast.NewIdent("sync")
